@@ -434,6 +434,7 @@ def h0 : HashFns where
   int n := if n == -1 then -2 else n % P61
   bool b := if b then 1 else 0
   tuple l := l.foldl (fun acc x => (acc * 1000003 + (x % P61) * 31 + 97) % P61) 3430008
-  fset l := (l.map (fun x => (x % P61) * (x % P61) + 89869747 * (x % P61))).foldl (· + ·) 0 % P61
+  fset l := ((l.map (fun x => (x % P61) * (x % P61) + 89869747 * (x % P61) + 3141592653)).foldl (· + ·) 0 * 69069
+    + 907133923 + l.length) % P61
 
 end PS.C16
